@@ -212,7 +212,7 @@ func isCallTo(info *types.Info, call *ast.CallExpr, keys ...string) bool {
 	if o == nil {
 		return false
 	}
-	k := shortKey(objKey(o))
+	k := canonKey(o.Pkg(), shortKey(objKey(o)))
 	for _, want := range keys {
 		if k == want {
 			return true
